@@ -725,14 +725,14 @@ def translate_mtgen():
                                           "extern::parse_instantiate_response_data"})
 
 
-def translate_mtmethods():
+def translate_mtmethods(side="contract"):
     """The four kinds of GENERATED proxy method (contract/mt.rs emit_mt_method_definition), for every contract and method:
     the message constructor `Api::<Kind>::<method>(args)` is the constructor value `<Kind>Msg::of [args]`; the chain's
     query_wasm_smart / wasm_sudo are `extern::..` calls; ExecProxy::new / MigrateProxy::new / App::app_mut are the
     translated run-time library."""
     from . import tmpl_translate, translate
     _, templates, _ = translate.fetch_tables()
-    path = tmpl_translate.proxy_methods_source(templates)
+    path = tmpl_translate.proxy_methods_source(templates, side)
     kv = fetch_ast(path)
 
     def setup(t):
@@ -878,6 +878,12 @@ def generate():
         mtmeth, _ = [], errors.append("generated proxy methods (contract/mt.rs templates): %s" % e)
 
     try:
+        mtmeth_i = translate_mtmethods("interface")
+    except Exception as e:
+        if type(e).__name__ != "TranslateError":
+            raise
+        mtmeth_i, _ = [], errors.append("generated interface proxy methods (interface/mt.rs templates): %s" % e)
+    try:
         macro = translate_macro_logic()
     except TranslateError as e:
         macro, _ = [], errors.append("macro logic (entry_points.rs, override_entry_point.rs): %s" % e)
@@ -908,6 +914,8 @@ def generate():
         "Definition mtgen_fns : program :=", prog(mtgen), "",
         "(* GENERATED code, for every contract and method: the exec / query / sudo / migrate proxy methods (one symbolic argument) *)",
         "Definition mtmeth_fns : program :=", prog(mtmeth), "",
+        "(* ... and the same four templates of the INTERFACE side (interface/mt.rs) *)",
+        "Definition mtmeth_iface_fns : program :=", prog(mtmeth_i), "",
         "(* sylvia-derive: decision logic of the macro - EntryPoints::emit (which entry points exist) and get_entry_point *)",
         "Definition macro_fns : program :=", prog(macro), "",
         "(* sylvia-derive: which body each operation of the generated `impl cw_multi_test::Contract` gets (contract/mt.rs) *)",
